@@ -530,6 +530,49 @@ func runC10(c *Ctx) {
 			bad = "UNDECIDED: no split of the name at its dots found"
 		}
 		c.Check(bad == "", "C10.R8", shortFn(vh)+": labels of the argument itself", vh.Pos(), "no trimming of the argument before its labels are checked", bad)
+		// labels cut off one by one with strings.Cut: the walk goes on while the last cut found a dot.
+		// "While the rest is not empty" stops in front of the empty label behind a final dot, which is
+		// then never rejected ("example.net.." behind the PTR handler's own trimming of one dot).
+		for _, fn := range groupFuncs(c.P, vh) {
+			loops := loopsOf(fn)
+			eachInstr(fn, func(b *ssa.BasicBlock, in ssa.Instruction) {
+				cl, ok := in.(*ssa.Call)
+				if !ok {
+					return
+				}
+				cal := cl.Call.StaticCallee()
+				if cal == nil || calleeName(cal) != "strings.Cut" || len(cl.Call.Args) != 2 {
+					return
+				}
+				if k, isK := cl.Call.Args[1].(*ssa.Const); !isK || k.Value == nil || k.Value.ExactString() != "\".\"" {
+					return
+				}
+				l := innermostLoop(loops, b)
+				if l == nil {
+					return
+				}
+				iff, isIf := l.Header.Instrs[len(l.Header.Instrs)-1].(*ssa.If)
+				if !isIf {
+					return
+				}
+				bad2 := ""
+				if bo, isB := iff.Cond.(*ssa.BinOp); isB {
+					isStr := func(v ssa.Value) bool {
+						bt, ok := v.Type().Underlying().(*types.Basic)
+						return ok && bt.Kind() == types.String
+					}
+					if (bo.Op == token.NEQ || bo.Op == token.EQL || bo.Op == token.GTR || bo.Op == token.LSS) && (isStr(bo.X) || isStr(bo.Y)) {
+						bad2 = "the walk over the labels goes on while the rest of the name is not empty: the empty label behind a final dot is never looked at, so a name that ends in a dot (\"example.net..\" after the PTR handler has removed one) passes"
+					}
+					if un, isLen := bo.X.(*ssa.Call); isLen && bad2 == "" {
+						if bi, isBi := un.Call.Value.(*ssa.Builtin); isBi && bi.Name() == "len" && isStr(un.Call.Args[0]) {
+							bad2 = "the walk over the labels goes on while the rest of the name is not empty: the empty label behind a final dot is never looked at"
+						}
+					}
+				}
+				c.Check(bad2 == "", "C10.R8", shortFn(fn)+": the label walk continues while a dot was found", cl.Pos(), "loop condition is the 'found' result of strings.Cut, not the emptiness of the rest", bad2)
+			})
+		}
 	}
 
 	// ---------- R9: the value part is everything behind the second ';' ----------
@@ -643,16 +686,66 @@ func runC10(c *Ctx) {
 		}
 	}
 
+	// ---------- R13: a parameter map that is made is filled ----------
+	// Two equal SVCB/HTTPS values must be equal for reflect.DeepEqual (the exception matcher of C09): no
+	// parameters is a nil map, parameters is a filled map.  A map that was made and left empty because an
+	// iteration was skipped is a third state that equals neither.
+	{
+		c.Rule("C10.R13", "WIRE", "every iteration of a loop that fills the parameter map of a rewrite value stores an entry or fails", 1)
+		for _, fn := range scope {
+			loops := loopsOf(fn)
+			for _, b := range fn.Blocks {
+				for _, in := range b.Instrs {
+					mu, ok := in.(*ssa.MapUpdate)
+					if !ok {
+						continue
+					}
+					if typeStr(mu.Map.Type()) != "map[string]string" {
+						continue
+					}
+					l := innermostLoop(loops, b)
+					if l == nil {
+						continue
+					}
+					bad := ""
+					for _, lt := range l.Latches {
+						if !b.Dominates(lt) {
+							bad = c.P.Pos(lt.Instrs[len(lt.Instrs)-1].Pos()) + ": an iteration can go on to the next field without having stored a parameter (a skipped empty field): \"32 host \" then yields an empty, non-nil parameter map, which reflect.DeepEqual tells from the nil map of \"32 host\", and an exception for one no longer disables the rewrite written as the other"
+						}
+					}
+					c.Check(bad == "", "C10.R13", shortFn(fn)+": the parameter loop stores on every iteration", mu.Pos(), "the store dominates every back edge of the loop", bad)
+				}
+			}
+		}
+	}
+
 	// ---------- R4 ----------
 	{
-		res := boundsAudit(c, scope)
+		// the value reaches the parser through the option splitter: a panic there is a panic on a
+		// $dnsrewrite value too (a value that ends in the escape character)
+		scope4 := append([]*ssa.Function(nil), scope...)
+		if lo := c.P.Method("rules", "NetworkRule", "loadOptions"); lo != nil {
+			have := map[*ssa.Function]bool{}
+			for _, f := range scope4 {
+				have[f] = true
+			}
+			eachInstr(lo, func(_ *ssa.BasicBlock, in ssa.Instruction) {
+				if ci, ok := in.(ssa.CallInstruction); ok {
+					if cal := ci.Common().StaticCallee(); cal != nil && c.P.IsLibFunc(cal) && cal.Blocks != nil && !have[cal] && cal.Signature.Recv() == nil && cal.Signature.Results().Len() == 1 && typeStr(cal.Signature.Results().At(0).Type()) == "[]string" {
+						have[cal] = true
+						scope4 = append(scope4, cal)
+					}
+				}
+			})
+		}
+		res := boundsAudit(c, scope4)
 		bad := ""
 		for _, r := range res {
 			if r.Verdict == "violation" && bad == "" {
 				bad = fmt.Sprintf("%s: %s in %s may be out of range: %s", c.P.Pos(r.Pos), r.Expr, shortFn(r.Fn), r.Why)
 			}
 		}
-		c.Check(bad == "", "C10.R4", "$dnsrewrite parser: all index/slice operations in range", ldr.Pos(), fmt.Sprintf("%d sites in %d functions", len(res), len(scope)), bad)
+		c.Check(bad == "", "C10.R4", "$dnsrewrite parser: all index/slice operations in range", ldr.Pos(), fmt.Sprintf("%d sites in %d functions", len(res), len(scope4)), bad)
 	}
 
 	// ---------- R7: numbers are parsed with the width of the field they are stored in ----------
